@@ -45,7 +45,8 @@ key = st.tuples(st.sampled_from(KEY1), st.text(alphabet=KEYCH, max_size=8)).map(
 realkeys = st.sampled_from(['Title', 'Author', 'Date', 'Keywords', 'Copyright', 'Affiliation', 'Revision', 'My Key', 'x-custom.key_1'])
 anykey = st.one_of(key, key, realkeys)
 val1 = st.text(alphabet=VALCH, min_size=1, max_size=14)
-entry = st.tuples(anykey, val1, st.lists(val1, max_size=2), st.sampled_from([' ', '\t', '  ', '', ' \t ']), st.sampled_from(['', '  ', '\t', '    ']))
+URLS = st.sampled_from(['http://creativecommons.org/licenses/by/4.0/', 'https://example.org/a?b=1', 'ftp://files.example.com/x'])
+entry = st.tuples(anykey, val1, st.lists(st.one_of(val1, val1, URLS), max_size=2), st.sampled_from([' ', '\t', '  ', '', ' \t ']), st.sampled_from(['', '  ', '\t', '    ']))
 opst = st.tuples(st.sampled_from(['existing', 'existing', 'new']), st.integers(0, 7), st.integers(0, 3), st.one_of(val1, val1, st.none()), anykey)
 
 
@@ -87,6 +88,8 @@ def sanitize_value(v, first_line=True, sep=' '):
 
 def sanitize_cont(c):
     c = c.rstrip('\\')
+    if re.fullmatch(r'(https?|ftp)://[A-Za-z0-9./?=_-]+', c):
+        return c          # a line that scans as a URL is not a key line (documented precedence), so it continues the value, indented or not
     if ':' in c or not any(ch.isascii() and ch.isalnum() for ch in c):
         return None
     if re.match(r'^\s*([-*+]|\d+\.)(\s|$)', c):
